@@ -261,12 +261,12 @@ def str_lit_ok(ps: List[int], q: int, ps2: List[int], q2: int) -> bool:
                 py = ("ok", ast.literal_eval(lit))
         except Exception:
             py = ("err", None)
+        if py[0] == "err":
+            return True  # not a Python string literal (unbalanced quotes, bad escape, or an expression such as '' % ''): outside the property
         try:
             jv = ("ok", ENV.compile_expression(lit)())
         except TemplateSyntaxError:
             jv = ("err", None)
-        if py[0] == "err":
-            return True  # not a Python string literal (unbalanced quotes, bad escape): outside the property
         if "\n" in lit:
             return True  # a raw line break inside quotes is not a Python single-quoted literal
         if not isinstance(py[1], str):
